@@ -1,5 +1,5 @@
 """C11 - ids unique, dense, canonically ordered; references resolve."""
-from . import compiler_rules as cr, builder_rules as br, misc_rules as ms, error_rules as er
+from . import line_rules as lr, compiler_rules as cr, builder_rules as br, misc_rules as ms, error_rules as er
 
 META = {
     "level": "other",
@@ -24,5 +24,7 @@ def run(rep):
     cr.rule_steps(rep, rid_order="C11.refs", want=("order",))
     cr.rule_tags(rep, "C11.tagorder", "C11.refs")
     ms.rule_det(rep, "C11.det")
+    # which lines are elements at all (and so get ids): a line's indentation is every leading blank
+    lr.rule_line_basics(rep, "C11.line")
     # no hidden state: what the property promises for one use must hold for every later use as well
     ms.rule_stateless(rep, "C11")
